@@ -1,6 +1,7 @@
 import TsVerif.Common.IO
 import TsVerif.Common.Tree
 import TsVerif.C05.Judge
+import TsVerif.C05.CapQuant
 /-!
 Driver for C05: reads cases written by `harness/src/bin/c05.rs` (visible tree, query text, compile
 verdict, matches of the real cursor), parses the query into `Pat`, runs `matchAll`, prints
@@ -19,6 +20,7 @@ structure St where
   nodes : Array (VInfo × Nat) := #[]
   capNames : Array String := #[]
   impls : Array MatchKey := #[]
+  cqs : Array (Nat × List Nat) := #[]
 
 def strOfHex (h : String) : String :=
   if h == "-" then "" else
@@ -100,6 +102,31 @@ def anchorAfterAlternation (q : String) : Bool :=
     | [] => false
   go toks
 
+def qCode : TsGen.TSQuantifier → Nat
+  | .TSQuantifierZero => 0 | .TSQuantifierZeroOrOne => 1 | .TSQuantifierZeroOrMore => 2
+  | .TSQuantifierOne => 3 | .TSQuantifierOneOrMore => 4
+
+/-- `occ` of Props, as a Bool on quantifier codes. -/
+def occB (q n : Nat) : Bool :=
+  match q with | 0 => n == 0 | 1 => n ≤ 1 | 2 => true | 3 => n == 1 | _ => n ≥ 1
+
+/-- Capture quantifiers: (a) the compiler's table equals `capQItem` (correspondence with the
+definition `capture_count_within_quantifier` is about), (b) every real match respects the
+compiler's table.  Returns (corr, judge). -/
+def checkCapQ (s : St) (items : List Item) : String × String :=
+  let names := s.capNames.toList
+  let diffs := (s.cqs.toList.filterMap fun (p, qs) =>
+    match items[p]? with
+    | none => none
+    | some it =>
+      let model := names.map fun c => qCode (capQItem c it)
+      if model == qs then none else some s!"p{p}:model={model},impl={qs}")
+  let bad := s.impls.toList.filter fun m =>
+    match s.cqs.toList.find? (fun x => x.1 == m.1) with
+    | none => false
+    | some (_, qs) => (names.zipIdx).any fun (c, i) => !occB (qs.getD i 2) ((m.2.filter fun x => x.1 == c).length)
+  (if diffs.isEmpty then "ok" else "DIFF-" ++ String.intercalate ";" diffs, if bad.isEmpty then "ok" else "FAIL")
+
 def runCase (s : St) : String :=
   let tail := s!"compiled={s.compiled.getD false} haserror={s.hasError}"
   match buildVT s.nodes.toList with
@@ -112,7 +139,8 @@ def runCase (s : St) : String :=
       if quant && maxFanout vt > 9 then s!"{s.id} judge=SKIP toolarge qfree=false {tail}" else
       let model := modelMatches vt items
       let impl := s.impls.toList.map fun m => (m.1, canon m.2)
-      let info := s!"nimpl={impl.length} nmodel={model.length} qfree={!quant} npat={items.length} {tail}"
+      let (cqCorr, cqJudge) := checkCapQ s items
+      let info := s!"nimpl={impl.length} nmodel={model.length} qfree={!quant} npat={items.length} capq={cqCorr} capqjudge={cqJudge} {tail}"
       match s.compiled with
       | some true =>
         if !(impl.all fun x => model.contains x) then
@@ -132,6 +160,7 @@ def runCase (s : St) : String :=
           let subsumed := bad.all fun x => impl.any fun y => y.1 == x.1 && y != x && subBag x.2 y.2
           let kind := if subsumed then "incomplete-subsumed" else if anchorAfterNestedWildcard s.query then "incomplete-anchor-after-nested-wildcard" else if anchorAfterAlternation s.query then "incomplete-anchor-after-uncaptured-alternation" else if (s.query.splitOn "(MISSING").length > 1 then "incomplete-missing-uncaptured" else if (s.query.splitOn "(ERROR ").length > 1 then "incomplete-error-children-uncaptured" else if anchorAfterUncapturedSubtree s.query then "incomplete-anchor-after-uncaptured-subtree" else if anchorAfterUncaptured s.query then "incomplete-anchor-uncaptured" else "incomplete"
           s!"{s.id} judge=FAIL {kind} first={repr bad.head!} {info}"
+        else if cqJudge != "ok" then s!"{s.id} judge=FAIL capture-count-outside-quantifier {info}"
         else s!"{s.id} judge=ok {info}"
       | _ =>
         -- the rejected pattern is the one on the line of the error offset (one pattern per line)
@@ -157,6 +186,7 @@ def step (s : St) (line : String) : IO St := do
   | "caps" :: names => return { s with capNames := names.toArray }
   | "m" :: pat :: _n :: rest =>
     return { s with impls := s.impls.push (natOf pat, parseCapPairs s.capNames (rest.map natOf)) }
+  | "cq" :: pat :: rest => return { s with cqs := s.cqs.push (natOf pat, rest.map natOf) }
   | ["run"] => IO.println (runCase s); return s
   | _ => return s
 
